@@ -241,6 +241,8 @@ def consumer_scenario(rnd, script, group=True, gaps=False):
             choices += ['stop', 'shutdown'] if step > 1 else []
             if group:
                 choices += ['commit']
+        elif c._start_d is None and not state.get('restarted'):
+            choices += ['restart', 'restart']          # C13: "A stopped consumer can be started again"
         ev = rnd.choice(choices)
         script.append(ev)
         try:
@@ -283,6 +285,18 @@ def consumer_scenario(rnd, script, group=True, gaps=False):
                     d.errback(Failure(RuntimeError('processor failed')))
             elif ev == 'commit':
                 c.commit().addErrback(lambda f: None)
+            elif ev == 'restart':
+                # a new run of the same consumer object: everything of the earlier run was cancelled by stop()
+                state['restarted'] = True
+                state['stopped_at'] = None
+                state['in_processor'] = 0
+                del proc_pending[:]
+                del invoked[:]
+                del start_results[:]
+                del shutdown_results[:]
+                nxt = (state['processed_ok'][-1] + 1) if state['processed_ok'] else 0
+                state['failed'] = False
+                c.start(nxt).addBoth(start_results.append)
             elif ev == 'stop':
                 if c._start_d is not None:
                     c.stop()
